@@ -66,7 +66,7 @@ def cases():
                 if e == 'cli' and (path or not set(kw) <= CLI_PARAMS):
                     continue
                 out.append({'scenario': si, 'kw': ki, 'entry': e})
-    return out
+    return out + reuse_cases()
 
 
 def _pattern(src):
@@ -178,6 +178,8 @@ def _expected_ctx_count(src, pat_src, ctx):
 def run_case(c):
     """-> dict with 'fail': (class, what) when the entry point disagrees with the core"""
     from fst import FST
+    if c.get('reuse'):
+        return run_reuse(c)
     name, src, path, pat, tmpl, kws = SCENARIOS[c['scenario']]
     kw = kws[c['kw']]
     params = '+'.join(sorted(kw)) or 'defaults'
@@ -244,4 +246,77 @@ def run_case(c):
                 if other[:2] != core[:2]:
                     res['fail'] = ('explicit-empty-options', f'{which}={{}} gives {core[0]!r}, {which}=<the defaults> gives '
                                    f'{other[0]!r} (top-level options {kw})')
+    return res
+
+
+# ---------------------------------------------------------------------------------------------------------------------
+# arguments are inputs: the objects the caller passes (the `asts` list, option dictionaries, the pattern, a template FST)
+# are not consumed or changed by a call, so using them for a second call gives what fresh copies give
+
+REUSE_RULES = [('MCall', 'h(__FST_)'), ('MName("a", ctx=Load)', 'z'), (CHAIN[0], CHAIN[1])]
+REUSE_SRC = 'f(g(a), b)\nx = [a, h(b), c]\nk(f(a))  # tail\nv = [a, b, c, d]\n'
+
+
+def reuse_cases():
+    out = []
+    for back in (False, True):
+        for on in ('enter', 'leave'):
+            for sel in ('body[1:]', 'body[:3]', 'live-body', 'body[::2]'):
+                for entry in ('subn', 'sub'):
+                    for nested in (False, True):
+                        out.append({'reuse': True, 'back': back, 'on': on, 'sel': sel, 'entry': entry, 'nested': nested})
+    return out
+
+
+def _select(root, sel):
+    if sel == 'live-body':
+        return root.a.body                       # the tree's own field list
+    return eval('root.a.' + sel, {'root': root})
+
+
+def run_reuse(c):
+    """two successive rewrite rules over ONE selection: the same list object for both calls vs a fresh copy per call"""
+    from fst import FST
+    res = {'case': c, 'scenario': 'reuse', 'entry': c['entry'], 'params': 'asts+back+on', 'kw': repr(c)}
+
+    def run(shared):
+        root = FST(REUSE_SRC, 'exec')
+        sel = _select(root, c['sel'])
+        before = list(sel)
+        opts = {'pars': 'auto'}
+        copy_o, repl_o = {}, {'pars': True}
+        counts = []
+        for pat_src, tmpl in REUSE_RULES[:2]:
+            lst = sel if shared else list(before if c['sel'] != 'live-body' else root.a.body)
+            kw = dict(nested=c['nested'], back=c['back'], on=c['on'], asts=lst, copy_options=copy_o if shared else {},
+                      repl_options=repl_o if shared else {'pars': True}, **(opts if shared else {'pars': 'auto'}))
+            if c['entry'] == 'subn':
+                r = root.subn(_pattern(pat_src), tmpl, **kw)
+                counts.append((r[1], r[2]))
+            else:
+                root.sub(_pattern(pat_src), tmpl, **kw)
+                counts.append(None)
+            if shared and c['sel'] != 'live-body' and (len(sel) != len(before) or any(x is not y for x, y in zip(sel, before))):
+                return ('MUTATED', f'the list passed as asts was changed by the call: {len(before)} nodes before, {len(sel)} after')
+            if shared and (copy_o != {} or repl_o != {'pars': True} or opts != {'pars': 'auto'}):
+                return ('MUTATED', 'an options dictionary passed by the caller was changed by the call')
+        return (root.src, ast.dump(root.a), counts, ast.dump(ast.parse(root.src)))
+
+    try:
+        fresh = run(False)
+    except Exception as e:
+        fresh = ('EXC', type(e).__name__)
+    try:
+        shared = run(True)
+    except Exception as e:
+        shared = ('EXC', type(e).__name__ + ': ' + str(e)[:80])
+    res['nsub'] = 1
+    if shared[0] == 'MUTATED':
+        res['fail'] = ('argument-consumed', f'{c["entry"]}(asts={c["sel"]}, back={c["back"]}, on={c["on"]!r}): {shared[1]}')
+    elif shared != fresh:
+        res['fail'] = ('argument-consumed', f'two rules over one selection ({c["sel"]}, back={c["back"]}, on={c["on"]!r}) give '
+                       f'{shared[0]!r} {shared[2] if len(shared) > 2 else ""} when the same list object is passed twice, '
+                       f'{fresh[0]!r} {fresh[2] if len(fresh) > 2 else ""} with a fresh list per call')
+    elif fresh[0] != 'EXC' and fresh[1] != fresh[3]:
+        res['fail'] = ('tree-not-source', f'after {c["entry"]}(asts={c["sel"]}, back={c["back"]}) the tree is not the parse of its source')
     return res
